@@ -32,6 +32,8 @@ type c16World struct {
 	ckAdmin *http.Cookie
 	ckCarol *http.Cookie
 	pushCk  string
+	ckB     *http.Cookie
+	waBody  []byte // bob's signed WebAuthn assertion over his pending login challenge
 }
 
 // c16Action: one request, built against a prepared world.
@@ -61,6 +63,12 @@ func c16NewWorld() *c16World {
 	if json.Unmarshal(r.Body, &wr) == nil && wr.Challenge != "" {
 		sr := x.tokA.SignResponse(vfOrigin, wr.Challenge)
 		x.signReq["alice"] = &sr
+	}
+	// bob has a hardware token too and a WebAuthn login challenge pending; his assertion over it is ready
+	tokB := w.vfGiveU2F("bob", 1)
+	x.ckB = w.vfCookie("bob", AuthTypePassword)
+	if chal, _ := w.vfWebauthnBegin(x.ckB); chal != "" {
+		x.waBody = tokB.WebauthnAssertion(vfOrigin, chal)
 	}
 	// a VIP push has been started and approved for alice
 	x.pushCk = "push-cookie-alice"
@@ -104,6 +112,9 @@ func c16Actions() []c16Action {
 		{"u2f-SignResponse", "u2fSignResponse", "onetime:u2f-assertion", func(x *c16World, twin int) *http.Request {
 			body, _ := json.Marshal(x.signReq["alice"])
 			return vfReq{Method: "POST", Path: u2fSignResponsePath, Cookies: []*http.Cookie{x.ckA}, RawBody: body, ContentType: "application/json"}.Build()
+		}},
+		{"webauthn-AuthFinish", "webauthnAuthFinish", "onetime:webauthn-assertion", func(x *c16World, twin int) *http.Request {
+			return vfReq{Method: "POST", Path: webAuthnAuthFinishPath, Cookies: []*http.Cookie{x.ckB}, RawBody: x.waBody, ContentType: "application/json"}.Build()
 		}},
 		{"vip-PushStart", "vipPushStartHandler", "", func(x *c16World, twin int) *http.Request {
 			return vfReq{Method: "GET", Path: vipPushStartPath, Cookies: []*http.Cookie{x.ckA, {Name: vipTransactionCookieName, Value: fmt.Sprintf("fresh-push-%d", twin)}}}.Build()
@@ -360,7 +371,7 @@ func init() {
 	vfRegister(&vfeng.Check{
 		ID:    "C16",
 		Level: "model_checking",
-		Rule:  "stateless model checking of the real handlers under a controlled cooperative scheduler (vsched): for every unordered pair (incl. twins) of 19 request kinds and one pass of the real background clean-up loop that save or delete a profile, consume a one-time value or touch a shared map (thorough: also triples {Disable|Delete} x saver x saver and one-time triples), all interleavings at shim-lock and storage-operation (LoadUserProfile/SaveUserProfile/DeleteUserProfile/...) granularity with at most 2 preemptions (thorough 3) are executed on fresh instances; per execution: vector-clock analysis of the probed RuntimeState fields (localAuthData, vipPushCookie, pendingOauth2, totpLocalRateLimit, signer fields), deadlock/hang detection, and comparison of (responses, upgraded cookies, final token state) with the outcomes of all sequential orders of the same handlers; plus two unseal injections racing each other and a reader of the CA material on a sealed instance (signer fields race-free, one acknowledged transition)",
+		Rule:  "stateless model checking of the real handlers under a controlled cooperative scheduler (vsched): for every unordered pair (incl. twins) of 20 request kinds and one pass of the real background clean-up loop that save or delete a profile, consume a one-time value or touch a shared map (thorough: also triples {Disable|Delete} x saver x saver and one-time triples), all interleavings at shim-lock and storage-operation (LoadUserProfile/SaveUserProfile/DeleteUserProfile/...) granularity with at most 2 preemptions (thorough 3) are executed on fresh instances; per execution: vector-clock analysis of the probed RuntimeState fields (localAuthData, vipPushCookie, pendingOauth2, totpLocalRateLimit, signer fields), deadlock/hang detection, and comparison of (responses, upgraded cookies, final token state) with the outcomes of all sequential orders of the same handlers; plus two unseal injections racing each other and a reader of the CA material on a sealed instance (signer fields race-free, one acknowledged transition)",
 		Assumptions: []string{"preemption happens only at scheduling points: shim Lock, entry and exit of storage operations, spawn, thread end; critical sections of real mutexes (metrics, limiter, admin cache) are atomic at this granularity", "a non-serialisable outcome is a violation only when an acknowledged disable/delete is not in effect at the end or one one-time value is honoured twice; other lost updates are counted in the evidence", "races on fields without probes are left to the Go race detector (not part of this verdict)"},
 		Bounds: func(tier string) map[string]interface{} {
 			b := 2
